@@ -318,7 +318,7 @@ def oracle_c05(step):
             continue
         if sp == (frm, to):
             continue
-        folded = [g for g in gone if span(g) == (sp[0], frm) and sp[1] == to]
+        folded = [g for g in P if span(g) == (sp[0], frm) and sp[1] == to]
         if not folded:
             out.append({"what": f"`certify {pkg} {' '.join(pos)}` wrote an audit for the span {sp}, which is neither the span asked for nor "
                                 "that span folded with an adjacent prior audit"})
@@ -568,6 +568,31 @@ def run_histories(spec, cases, work, model_ok=True, compare_taps=True):
                     if tc:
                         uexprs.append((f"{cid}@{k}", tc[0]))
                         uwant[f"{cid}@{k}"] = tc[1]
+        cexprs, cwant = [], {}
+        for cid, o in obs.items():
+            if o["status"] != "ok":
+                continue
+            for k in range(len(o["steps"])):
+                st = Step(k, bycase[cid], o)
+                if st.cls == "certify":
+                    cc = usercmd.certify_case(st, o)
+                    if cc:
+                        cexprs.append((f"{cid}@{k}", cc[0]))
+                        cwant[f"{cid}@{k}"] = cc[1]
+        cmodel = vetlib.run_model(cexprs, os.path.join(work, "model-certify"), usercmd.CERTIFY_IMPORTS) if cexprs else {}
+        for key, want in cwant.items():
+            cid, k = key.rsplit("@", 1)
+            m = cmodel.get(key, "MODEL-ERROR: missing")
+            if m.startswith("MODEL-ERROR"):
+                res["mismatches"].append({"id": cid, "why": f"step {k} (certify): model evaluation failed: {m[:300]}", "case": gen.strip_struct(bycase[cid])})
+                continue
+            compared += 1
+            got = usercmd.canon_certify(m)
+            if got != want:
+                res["mismatches"].append({"id": cid, "why": f"step {k}: the audit `{' '.join(obs[cid]['steps'][int(k)]['args'][:4])}` recorded differs from the model's "
+                                          "(kind, from, to, meaning of the criteria list)",
+                                          "impl": json.dumps(want)[:600], "model": json.dumps(got)[:600], "case": gen.strip_struct(bycase[cid])})
+        certify_compared = len(cwant)
         umodel = vetlib.run_model(uexprs, os.path.join(work, "model-user"), usercmd.MODEL_IMPORTS) if uexprs else {}
         for key, want in uwant.items():
             cid, k = key.rsplit("@", 1)
@@ -621,6 +646,7 @@ def run_histories(spec, cases, work, model_ok=True, compare_taps=True):
             res["findings_seen"][f["finding"]] = True
     res["nontrivial"] = nontrivial
     res["stats"] = {"harness_status": dict(Counter(o["status"] for o in obs.values())), "commands": dict(cmds),
+                    "certify_entries_compared_with_the_model": locals().get("certify_compared", 0),
                     "outcomes": {f"{a}:{b}": n for (a, b), n in sorted(outcomes.items())}, "compared": compared,
                     "taps": sum(len(o.get("taps", [])) for o in obs.values())}
     if res["mismatches"]:
